@@ -35,7 +35,21 @@ def _fake_kill(pid, sig):
 
 
 bp._kill = _fake_kill
-os.getpgid = lambda pid: -1         # never a group leader: plain terminate()/_kill path
+def _fake_getpgid(pid):
+    # every second fake worker leads its own process group (a task that called os.setpgrp()): the
+    # time-limit kill then goes through os.killpg instead of terminate()/_kill -- same signals
+    p = FakeProcess.by_pid.get(pid)
+    if p is None:
+        raise ProcessLookupError(3, 'No such process')
+    return pid if p.ref % 2 == 1 else -1
+
+
+def _fake_killpg(pgid, sig):
+    return _fake_kill(pgid, sig)
+
+
+os.getpgid = _fake_getpgid
+os.killpg = _fake_killpg
 _real_os_kill = os.kill
 os.kill = _fake_kill                # ResultHandler.on_death uses os.kill
 
